@@ -525,4 +525,24 @@ theorem tradLoop_noskip (first : PlaylistView) : ∀ (rest : List PlaylistView) 
         · rfl
         · rfl
         · exact ih _ _ r hr
+
+theorem llLoop_ne_panic (skip : Bool) : ∀ (rest : List PlaylistView) (pl : PlaylistView),
+    pl.hint.isSome = true → (llLoop skip pl rest).2 ≠ .panic := by
+  intro rest
+  induction rest with
+  | nil =>
+    intro pl hh
+    rw [llLoop]
+    cases h : pl.hint with
+    | none => simp [h] at hh
+    | some x => simp
+  | cons pl' rest' ih =>
+    intro pl hh
+    rw [llLoop]
+    cases h : pl.hint with
+    | none => simp [h] at hh
+    | some x =>
+      cases h' : pl'.hint with
+      | none => simp [h']
+      | some h2 => simpa [h'] using ih pl' (by simp [h'])
 end Hls.Client.Select
